@@ -51,7 +51,19 @@ def gen_case(rng, i):
     else:
         act = ACT_KINDS[(i // 8) % len(ACT_KINDS)]
     obs = OBS_KINDS[(i // 3) % len(OBS_KINDS)] if rng.random() < 0.8 else rng.choice(OBS_KINDS)
-    return {"id": i, "algo": algo, "obs": obs, "act": act, "scale": rng.choice([1.0, 30.0, 30.0, 1000.0]), "n": rng.choice([2, 3, 5]),
+    off = algo in ("SAC", "TD3", "DDPG")
+    pkc = {
+        "net_arch": rng.choice(["default", "empty", "empty", "8", "8", "dict", "dict_empty"] if algo != "DQN" else ["default", "empty", "8"]),
+        "act_fn": rng.choice(["default", "relu", "tanh", "elu"]),
+        "share_fe": rng.choice([None, True, False]) if algo != "DQN" else None,
+        "n_critics": rng.choice([None, 1, 3]) if off else None,
+        "normalize_images": rng.random() > 0.2,
+        "log_std_init": rng.choice([None, -2.0, 0.5]) if algo in ("PPO", "A2C", "SAC") else None,
+        "ortho_init": rng.choice([None, False]) if algo in ("PPO", "A2C") else None,
+        "custom_fe": rng.random() < 0.25,
+        "sac_sde": algo == "SAC" and rng.random() < 0.3,
+    }
+    return {"id": i, "pk": pkc, "algo": algo, "obs": obs, "act": act, "scale": rng.choice([1.0, 30.0, 30.0, 1000.0]), "n": rng.choice([2, 3, 5]),
             "squash_sde": algo in ("PPO", "A2C") and act.startswith("box") and rng.random() < 0.3, "seed": rng.randint(0, 10**6),
             "dims": [rng.randint(1, 4) for _ in range(3)], "nd": rng.randint(2, 9)}
 
@@ -118,11 +130,48 @@ def run_impl(case):
     th.manual_seed(case["seed"])
     has_img = is_image_space(ob) or (isinstance(ob, spaces.Dict) and any(is_image_space(s) for s in ob.spaces.values()))
     policy = "MultiInputPolicy" if isinstance(ob, spaces.Dict) else ("CnnPolicy" if is_image_space(ob) else "MlpPolicy")
-    pk = dict(net_arch=[8])
+    algo = case["algo"]
+    pkc = case.get("pk") or {}
+    off = algo in ("SAC", "TD3", "DDPG")
+    arch = pkc.get("net_arch", "8")
+    pk = {}
+    if arch == "empty":
+        pk["net_arch"] = []
+    elif arch == "8":
+        pk["net_arch"] = [8]
+    elif arch == "dict":
+        pk["net_arch"] = dict(pi=[8], qf=[4]) if off else dict(pi=[8], vf=[4])
+    elif arch == "dict_empty":
+        pk["net_arch"] = dict(pi=[], qf=[4]) if off else dict(pi=[], vf=[])
+    if pkc.get("act_fn", "default") != "default":
+        pk["activation_fn"] = {"relu": th.nn.ReLU, "tanh": th.nn.Tanh, "elu": th.nn.ELU}[pkc["act_fn"]]
+    for key, name in (("share_fe", "share_features_extractor"), ("n_critics", "n_critics"), ("log_std_init", "log_std_init"), ("ortho_init", "ortho_init")):
+        if pkc.get(key) is not None:
+            pk[name] = pkc[key]
+    norm_img = pkc.get("normalize_images", True)
+    if not norm_img:
+        pk["normalize_images"] = False
     if has_img:
         pk["features_extractor_kwargs"] = dict(features_dim=8) if policy == "CnnPolicy" else dict(cnn_output_dim=8)
+        if not norm_img:
+            pk["features_extractor_kwargs"]["normalized_image"] = True
+    elif pkc.get("custom_fe") and policy == "MlpPolicy":
+        from stable_baselines3.common.preprocessing import get_flattened_obs_dim
+
+        class TinyExtractor(BaseFeaturesExtractor):
+            """a features extractor with parameters"""
+
+            def __init__(self, observation_space, features_dim=6):
+                super().__init__(observation_space, features_dim)
+                self.net = th.nn.Sequential(th.nn.Flatten(), th.nn.Linear(get_flattened_obs_dim(observation_space), features_dim), th.nn.Tanh())
+
+            def forward(self, observations):
+                return self.net(observations)
+
+        pk["features_extractor_class"] = TinyExtractor
     kw = {}
-    algo = case["algo"]
+    if pkc.get("sac_sde") and algo == "SAC":
+        kw["use_sde"] = True
     if case["squash_sde"]:
         kw["use_sde"] = True
         pk["squash_output"] = True
@@ -301,7 +350,7 @@ def run_impl(case):
         if isinstance(space, spaces.MultiDiscrete):
             return np.concatenate([np.eye(int(k), dtype=np.float32)[a[:, j].astype(int)] for j, k in enumerate(space.nvec)], axis=1)
         if is_image_space(space):
-            return a.astype(np.float32) / 255.0
+            return a.astype(np.float32) / 255.0 if norm_img else a.astype(np.float32)     # normalize_images=False: the user scales
         return a.astype(np.float32)
 
     def canon(space_, f, exp):
